@@ -59,6 +59,14 @@ class SimFError(Exception):
     pass
 
 
+class SimTypeError(TypeError, SimFError):
+    """f itself may raise a TypeError: that is f's outcome, not a binding problem of the wrapper"""
+
+
+class SimInterrupt(KeyboardInterrupt):
+    """not an Exception: an interrupt that arrives while f is being evaluated"""
+
+
 # ----------------------------------------------------------------------------------------------
 # generation
 # ----------------------------------------------------------------------------------------------
@@ -83,6 +91,8 @@ def generate(st):
         # what f returns: usually a canonical record of what it received; for some argument values a falsy result
         s['ret'] = sw.choice(['canon', 'canon', 'none_some', 'zero_some', 'emptylist_some'])
         s['bare'] = sw.random() < 0.3          # raises an exception that carries no message
+        s['exc_type'] = sw.random() < 0.3      # the armed failure is a TypeError (raised BY f)
+        s['interrupt_once'] = (not retry) and faulty and sw.random() < 0.15      # the very first evaluation of f is interrupted
         s['axis_param'] = sw.random() < 0.06   # a parameter that happens to be called axis (the name loops uses itself)
         funcs.append(s)
     decs = ['try', 'back', 'kws', 'cache', 'loop', 'pd2np']
@@ -271,7 +281,12 @@ def _make_funcs(fid, s, ledger):
             raised = True
         if s.get('arm') == 'transient' and state['calls'] <= s.get('m', 0):
             raised = True
+        if s.get('interrupt_once') and state['calls'] == 1:
+            ledger.append({'fid': fid, 'raised': True, 'n': state['calls']})
+            raise SimInterrupt('interrupted')
         ledger.append({'fid': fid, 'raised': raised, 'n': state['calls']})
+        if raised and s.get('exc_type') and not s.get('bare'):
+            raise SimTypeError('f%d armed' % fid)
         if raised:
             if s.get('bare'):
                 raise SimFError()
@@ -461,6 +476,11 @@ def execute(trace, ctx=None):
             status = 'ok'
         except SimFError as e:
             r, status = e, 'raise'
+        except SimInterrupt:
+            # an interrupt during the very first evaluation of f: nothing is asserted about this call (try_* may or may not
+            # let it through); the caller catches it and carries on - later calls must behave as if it had not happened
+            res.fault('interrupt')
+            return 'ok'
         except Exception as e:
             raise Violation('unexpected-exception', 'object#%d%s called with %r %r raised %s: %s' % (pool.index(o) if o in pool else -1, types, args, kwargs, type(e).__name__, str(e)[:200]), k)
         evals = ledger[before:]
